@@ -95,3 +95,37 @@ func proveGE(facts []Fact, v ssa.Value, seen map[ssa.Value]bool, depth int) bool
 	}
 	return false
 }
+
+// UpperChain lists v and every value w with v <= w derivable from the comparison facts of k (w is an upper bound
+// of v); LowerChain the values with w <= v.
+func UpperChain(k Conj, v ssa.Value) []ssa.Value { return chain(k.List(), Unwrap(v), true) }
+func LowerChain(k Conj, v ssa.Value) []ssa.Value { return chain(k.List(), Unwrap(v), false) }
+
+func chain(facts []Fact, v ssa.Value, upper bool) []ssa.Value {
+	seen := map[ssa.Value]bool{v: true}
+	out := []ssa.Value{v}
+	for i := 0; i < len(out) && len(out) < 64; i++ {
+		cur := out[i]
+		for _, f := range facts {
+			var w ssa.Value
+			le := f.Op == token.LEQ || f.Op == token.LSS || f.Op == token.EQL
+			ge := f.Op == token.GEQ || f.Op == token.GTR || f.Op == token.EQL
+			if !upper {
+				le, ge = ge, le
+			}
+			switch {
+			case le && f.Y != nil && sameVal(Unwrap(f.X), cur):
+				w = Unwrap(f.Y)
+			case ge && f.Y != nil && sameVal(Unwrap(f.Y), cur):
+				w = Unwrap(f.X)
+			default:
+				continue
+			}
+			if !seen[w] {
+				seen[w] = true
+				out = append(out, w)
+			}
+		}
+	}
+	return out
+}
